@@ -67,6 +67,7 @@ func New(
 		fileSourceOptions = append(fileSourceOptions, bstream.FileSourceWithBlockIndexProvider(s.blockIndexProvider))
 	}
 
+	fileSourceOptions = append(fileSourceOptions, verifFileSourceOptions()...)
 	s.fileSourceFactory = bstream.NewFileSourceFactory(
 		mergedBlocksStore,
 		forkedBlocksStore,
